@@ -24,6 +24,17 @@ theorem union_edgeset (a b : NodeList) (s : String) (t : Int) (d : String) :
       (a.HasEdge s t d ∨ b.HasEdge s t d) ∧ (s ∈ a.ids ∨ s ∈ b.ids) ∧ (d ∈ a.ids ∨ d ∈ b.ids) := by
   rw [union_edges, union_ids, union_ids]
 
+/-- least upper bound: a list that has the nodes of both operands has the nodes of the union -/
+theorem union_lub_nodes (a b c : NodeList) (ha : ∀ x, x ∈ a.ids → x ∈ c.ids)
+    (hb : ∀ x, x ∈ b.ids → x ∈ c.ids) (x : String) (h : x ∈ (a.union b).ids) : x ∈ c.ids := by
+  rw [union_ids] at h; exact h.elim (ha x) (hb x)
+
+/-- each operand's edges between nodes the union has are edges of the union -/
+theorem union_edges_sup (a b : NodeList) (s t d) (h : a.HasEdge s t d ∨ b.HasEdge s t d)
+    (hs : s ∈ (a.union b).ids) (hd : d ∈ (a.union b).ids) : (a.union b).HasEdge s t d := by
+  rw [union_ids] at hs hd
+  rw [union_edges, union_ids, union_ids]; exact ⟨h, hs, hd⟩
+
 theorem add_nodes (a b : NodeList) (x : String) : x ∈ (a.add b).ids ↔ x ∈ a.ids ∨ x ∈ b.ids :=
   add_ids a b x
 
